@@ -32,6 +32,8 @@ var sessionPieces = []string{
 	"if true { y := 2; undefined_name }",
 	"const c = 3\nc = 4",
 	"x",
+	"func __main__(n) { if n == 0 { return 0 }\n return __main__(n - 1) + 1 }",
+	"__main__(3)",
 }
 
 func sessions(maxLen int) [][]int {
@@ -53,12 +55,17 @@ func sessions(maxLen int) [][]int {
 }
 
 // session compiles the pieces on one compiler and checks the accumulated code of the last accepted piece.
-func session(r *ev.Run, env *rt.Env, seq []int) {
+// perPiece: every piece is compiled by a new compiler that continues the code of the accepted ones
+// (compiler.WithCode), the way a host that keeps only the code object between requests does.
+func session(r *ev.Run, env *rt.Env, seq []int, perPiece bool) {
 	var names []string
 	for _, i := range seq {
 		names = append(names, sessionPieces[i])
 	}
 	label := strings.Join(names, " ;; ")
+	if perPiece {
+		label = "[a new compiler per piece] " + label
+	}
 	rep := func(kind, what string) {
 		r.Report("C17:session:"+kind, "incremental session ["+label+"]\n  "+what, replayIn{"session", label}, what, "")
 	}
@@ -78,6 +85,13 @@ func session(r *ev.Run, env *rt.Env, seq []int) {
 		tree, err := parser.Parse(context.Background(), sessionPieces[i])
 		if err != nil {
 			continue
+		}
+		if perPiece && code != nil {
+			c, err = compiler.New(compiler.WithGlobalNames(env.Names), compiler.WithCode(code))
+			if err != nil {
+				r.EngineError(err.Error())
+				return
+			}
 		}
 		if cc, err := c.Compile(tree); err == nil {
 			code = cc
